@@ -141,8 +141,8 @@ def bounds_critical(rng, tss, count):
         out.append((b(), b()))
     return out
 
-def new_line(name, p, hdr=b"", caches=(), cb="none"):
-    return "new %s p=%d hdr=%s caches=%s cb=%s" % (name, p, hexb(hdr), ",".join(map(str, caches)) or "-", cb)
+def new_line(name, p, hdr=b"", caches=(), cb="none", ext=None):
+    return "new %s p=%d hdr=%s caches=%s cb=%s" % (name, p, hexb(hdr), ",".join(map(str, caches)) or "-", cb) + ("" if ext is None else " ext=%d" % ext)
 
 def open_line(name, p="any", hdr="any", caches=(), cb="none", ext=0):
     h = hdr if hdr == "any" else hexb(hdr)
@@ -384,9 +384,18 @@ def fam_ranges(rng, tier, i):
     lines = mk_lines(rng, p, n, shape=rng.choice(["edge", "mixed", "sparse", "jitter"]))
     if not lines:
         lines = mk_lines(rng, p, n, shape="jitter", base=5)
+    at_max = rng.random() < 0.2
+    if at_max:
+        # the last line sits exactly at 2^64-1: bounds at the top of the range meet a stored line
+        d = U64 - 1 - lines[-1][0]
+        lines = [(t + d, pay) for t, pay in lines]
     tss = [t for t, _ in lines]
     n = len(tss)
     s = [new_line("r", p)] + push_lines(lines)
+    if at_max:
+        m = U64 - 1
+        s += ["read_all e%d u" % m, "read_all e%d i%d" % (m, m), "read_first_n 1 e%d u" % m, "n_lines e%d u" % m,
+              "read_all i%d u" % m, "read_all e%d u" % (m - 1), "read_all u e%d" % m, "n_lines i%d i%d" % (m, m)]
     for lo, hi in bounds_critical(rng, tss, 14 if tier == "quick" else 40):
         k = rng.random()
         if k < 0.45:
@@ -716,6 +725,12 @@ def fam_contract(rng, tier, i):
         s += ["fs_write index:k 00000a0a", new_line("k", p, hdr), "dump", "fs_rm index:k", new_line("k", p, hdr), "close"]
     elif r < 0.6:
         s += ["fs_write cdata:k:2 00000a0a", new_line("k", p, hdr, (2,)), "dump"]
+    elif r < 0.85:
+        # the path is given with the extension on create, with cache levels; then opened without / with it
+        cs = rng.choice([(2,), (3,), (2, 5)])
+        l2 = mk_lines(rng, p, rng.choice([1, 4, 6]), shape="jitter", base=rng.choice([7, 2**40]), no_marker=True)
+        s += [new_line("e", p, hdr, cs, ext=1)] + push_lines(l2[:2]) + ["close", open_line("e", rng.choice(["any", p]), "any", cs, ext=rng.randrange(2))] + push_lines(l2[2:]) + ["read_all u u", "close",
+              open_line("e", "any", hdr, cs, ext=1), "len", "dump", "close", new_line("e", p, hdr, cs, ext=1), new_line("e", p, hdr, (), ext=0), "dump"]
     return {"family": "contract", "lines": s, "tags": {"p%d" % p}}
 
 def fam_corrupt(rng, tier, i):
